@@ -473,3 +473,65 @@ def _find_block(root, target_name_node):
                     if isinstance(st, ast.Assign) and len(st.targets) == 1 and st.targets[0] is target_name_node:
                         return b, i
     return None
+
+
+# ---------------------------------------------------------------------------------------------------
+# N27: arms of an if/elif chain folded into a new module-level table (`elif name in TABLE: ... TABLE[name] ...`) are unfolded
+# again: one arm per distinct value of the table, the lookup replaced by that value.
+# ---------------------------------------------------------------------------------------------------
+
+def expand_table_dispatch(tree, known_globals):
+    tables = {}
+    for st in tree.body:
+        if isinstance(st, ast.Assign) and len(st.targets) == 1 and isinstance(st.targets[0], ast.Name) and isinstance(st.value, ast.Dict) and \
+                st.targets[0].id not in known_globals and st.value.keys and \
+                all(isinstance(k, ast.Constant) and isinstance(k.value, (str, int)) for k in st.value.keys):
+            tables[st.targets[0].id] = st.value
+    if not tables:
+        return 0
+    count = [0]
+
+    class T(ast.NodeTransformer):
+        def visit_If(self, n):
+            self.generic_visit(n)
+            t = n.test
+            if isinstance(t, ast.Compare) and len(t.ops) == 1 and isinstance(t.ops[0], ast.In) and isinstance(t.comparators[0], ast.Name) and \
+                    t.comparators[0].id in tables:
+                tab = tables[t.comparators[0].id]
+                subj = t.left
+                groups = []      # [(value dump, value ast, [key constants])] in first-appearance order
+                for k, v in zip(tab.keys, tab.values):
+                    d = ast.dump(v)
+                    for g in groups:
+                        if g[0] == d:
+                            g[2].append(k)
+                            break
+                    else:
+                        groups.append((d, v, [k]))
+                sd = ast.dump(subj)
+
+                class S(ast.NodeTransformer):
+                    def __init__(s, val):
+                        s.val = val
+
+                    def visit_Subscript(s, x):
+                        s.generic_visit(x)
+                        if isinstance(x.value, ast.Name) and x.value.id == t.comparators[0].id and ast.dump(x.slice) == sd and isinstance(x.ctx, ast.Load):
+                            return copy.deepcopy(s.val)
+                        return x
+                arms = []
+                for d, v, keys in groups:
+                    test = ast.Compare(left=copy.deepcopy(subj), ops=[ast.In()], comparators=[ast.Tuple(elts=[copy.deepcopy(k) for k in keys], ctx=ast.Load())]) \
+                        if len(keys) > 1 else ast.Compare(left=copy.deepcopy(subj), ops=[ast.Eq()], comparators=[copy.deepcopy(keys[0])])
+                    body = [S(v).visit(copy.deepcopy(b)) for b in n.body]
+                    arms.append(ast.If(test=test, body=body, orelse=[]))
+                for a, b in zip(arms, arms[1:]):
+                    a.orelse = [b]
+                arms[-1].orelse = n.orelse
+                count[0] += 1
+                return ast.copy_location(arms[0], n)
+            return n
+    T().visit(tree)
+    if count[0]:
+        ast.fix_missing_locations(tree)
+    return count[0]
